@@ -397,8 +397,10 @@ def run_check(prop, tier, verif_seed):
             exit_code = 1
         reported.append({'clause': sig[0], 'key': sig[1], 'known': bool(k), 'replay': path})
     if det_same != det_total:
-        lines.append('HARNESS-ERROR: %d of %d re-executed runs had a different event-log digest' % (det_total - det_same, det_total))
-        exit_code = exit_code or 2
+        # reported and recorded in the evidence, but not an alarm: code under test that puts a pid or a time stamp into what
+        # it writes makes runs differ between processes without breaking any property (./check selftest-determinism is
+        # the place where the harness's own determinism is established, on the unchanged tree)
+        lines.append('NOTE: %d of %d re-executed runs had a different event-log digest' % (det_total - det_same, det_total))
     if total['harness']:
         for h in total['harness'][:3]:
             lines.append('HARNESS-ERROR run %s:\n%s' % (h['index'], h['error']))
